@@ -777,3 +777,228 @@ func cmdDap(args []string) int {
 	}
 	return 0
 }
+
+// ---------------------------------------------------------------- session protocol (spec/DapSession.tla)
+
+type protoSchedule struct {
+	S       int              `json:"S"`
+	E       int              `json:"E"`
+	Allowed []map[string]any `json:"allowed"` // outcomes TLC found reachable: {stops_seen, term, unanswered_steps, discon}
+	Reps    int              `json:"reps"`
+	Canary  bool             `json:"canary,omitempty"`
+}
+
+func runProto(falco, vclPath string, r rendered, s protoSchedule) (map[string]any, error) {
+	port := freePort()
+	cmd := exec.Command(falco, "dap", "-p", strconv.Itoa(port))
+	cmd.Dir = filepath.Dir(vclPath)
+	stdin, _ := cmd.StdinPipe()
+	stdout, _ := cmd.StdoutPipe()
+	if err := cmd.Start(); err != nil {
+		return nil, &machineryError{"cannot start falco dap: " + err.Error()}
+	}
+	c := &dapClient{cmd: cmd, in: stdin, out: bufio.NewReaderSize(stdout, 1<<16), msgs: make(chan map[string]any, 256), errCh: make(chan error, 2)}
+	go c.reader()
+	defer func() {
+		stdin.Close()
+		done := make(chan struct{})
+		go func() { cmd.Wait(); close(done) }() // nolint:errcheck
+		select {
+		case <-done:
+		case <-time.After(2 * time.Second):
+			cmd.Process.Kill() // nolint:errcheck
+			<-done
+		}
+	}()
+	deadline := time.After(40 * time.Second)
+	var pending []map[string]any
+	waitResp := func(seq int) error {
+		for {
+			select {
+			case m, ok := <-c.msgs:
+				if !ok {
+					return &machineryError{"adapter closed its output early"}
+				}
+				if m["type"] == "response" && num(m["request_seq"]) == seq {
+					return nil
+				}
+				pending = append(pending, m)
+			case <-deadline:
+				return &machineryError{"timeout during setup"}
+			}
+		}
+	}
+	if err := waitResp(c.send("initialize", map[string]any{"adapterID": "verif"})); err != nil {
+		return nil, err
+	}
+	if err := waitResp(c.send("launch", map[string]any{"mainVCL": vclPath, "includePaths": []string{}})); err != nil {
+		return nil, err
+	}
+	if err := waitResp(c.send("setBreakpoints", map[string]any{"source": map[string]any{"path": vclPath},
+		"breakpoints": []map[string]any{{"line": r.lineOf[1]}}})); err != nil {
+		return nil, err
+	}
+	if err := waitResp(c.send("configurationDone", nil)); err != nil {
+		return nil, err
+	}
+	stepSeqs := map[int]bool{}
+	issued, answered, seenStopped, stops := 0, 0, 0, 0
+	issue := func() {
+		issued++
+		name := "next"
+		if issued >= s.S {
+			name = "continue"
+		}
+		stepSeqs[c.send(name, map[string]any{"threadId": 1})] = true
+	}
+	for i := 0; i < s.E; i++ {
+		issue() // before the request exists: the dispatch goroutines block on stateCh
+	}
+	go func() {
+		cl := &http.Client{Timeout: 20 * time.Second, Transport: &http.Transport{DisableKeepAlives: true}}
+		for i := 0; i < 200; i++ {
+			req, _ := http.NewRequest("GET", fmt.Sprintf("http://127.0.0.1:%d/x", port), nil)
+			req.Header.Set("T", "1")
+			resp, err := cl.Do(req)
+			if err != nil {
+				if strings.Contains(err.Error(), "connection refused") {
+					time.Sleep(10 * time.Millisecond)
+					continue
+				}
+				return
+			}
+			io.Copy(io.Discard, resp.Body) // nolint:errcheck
+			resp.Body.Close()
+			return
+		}
+	}()
+	seenTerm := false
+	discon := "none"
+	disconSeq := -1
+	var quiet <-chan time.Time
+	handle := func(m map[string]any) {
+		switch {
+		case m["type"] == "event" && m["event"] == "stopped":
+			seenStopped++
+			stops++
+		case m["type"] == "event" && m["event"] == "terminated":
+			if !seenTerm {
+				seenTerm = true
+				disconSeq = c.send("disconnect", map[string]any{})
+				discon = "sent"
+				quiet = time.After(1500 * time.Millisecond)
+			}
+		case m["type"] == "response" && stepSeqs[num(m["request_seq"])]:
+			answered++
+		case m["type"] == "response" && num(m["request_seq"]) == disconSeq:
+			discon = "answered"
+		}
+	}
+	for _, m := range pending {
+		handle(m)
+	}
+	for {
+		if seenStopped > 0 && issued == answered && !seenTerm {
+			seenStopped--
+			issue()
+		}
+		select {
+		case m, ok := <-c.msgs:
+			if !ok { // the adapter exited: nothing more will be answered
+				return map[string]any{"stops_seen": stops, "term": seenTerm, "unanswered_steps": issued - answered, "discon": discon}, nil
+			}
+			handle(m)
+		case <-quiet:
+			return map[string]any{"stops_seen": stops, "term": seenTerm, "unanswered_steps": issued - answered, "discon": discon}, nil
+		case <-deadline:
+			return nil, &machineryError{fmt.Sprintf("timeout: stops=%d issued=%d answered=%d term=%v", stops, issued, answered, seenTerm)}
+		}
+	}
+}
+
+func cmdProto(args []string) int {
+	fs := flag.NewFlagSet("proto", flag.ExitOnError)
+	falco := fs.String("falco", "", "falco binary built from the tree under test")
+	progs := fs.String("programs", "", "programs json printed by TLC")
+	dir := fs.String("dir", "", "scratch directory")
+	fs.Parse(args) // nolint:errcheck
+	ps, err := loadPrograms(*progs)
+	if err != nil {
+		fmt.Fprintln(os.Stderr, "programs:", err)
+		return 2
+	}
+	r := render(ps["P1"])
+	os.MkdirAll(*dir, 0o755) // nolint:errcheck
+	path := filepath.Join(*dir, "proto.vcl")
+	if err := os.WriteFile(path, []byte(r.text), 0o644); err != nil {
+		fmt.Fprintln(os.Stderr, err)
+		return 2
+	}
+	out := hx.NewOut()
+	defer out.Close()
+	err = hx.Lines(func(line []byte) error {
+		var s protoSchedule
+		if err := json.Unmarshal(line, &s); err != nil {
+			return err
+		}
+		if s.Reps == 0 {
+			s.Reps = 1
+		}
+		for rep := 0; rep < s.Reps; rep++ {
+			var o map[string]any
+			var rerr error
+			for try := 0; try < 3; try++ {
+				if o, rerr = runProto(*falco, path, r, s); rerr == nil {
+					break
+				}
+			}
+			if rerr != nil {
+				return fmt.Errorf("schedule S=%d E=%d: %v", s.S, s.E, rerr)
+			}
+			if s.Canary {
+				o["stops_seen"] = o["stops_seen"].(int) + 1
+			}
+			allowed := false
+			for _, a := range s.Allowed {
+				if num(a["stops_seen"]) == o["stops_seen"].(int) && a["term"] == o["term"] &&
+					num(a["unanswered_steps"]) == o["unanswered_steps"].(int) && a["discon"] == o["discon"] {
+					allowed = true
+				}
+			}
+			res := hx.CaseResult{ID: fmt.Sprintf("proto/S%d/E%d/rep%d", s.S, s.E, rep), Input: map[string]any{"S": s.S, "E": s.E},
+				Observed: o, Validated: true, Class: map[string]any{"front": "dap-session"}, Key: fmt.Sprintf("proto/%d/%d/%d", s.S, s.E, rep)}
+			if s.Canary {
+				res.ID = "canary-proto:" + res.ID
+				res.Key = nil
+			}
+			cls := func(id string) string {
+				if allowed {
+					return id
+				}
+				return "unclassified"
+			}
+			// requirement: the request stops S times, is terminated once, every DAP request gets its response
+			if o["stops_seen"].(int) != s.S || o["term"] != true {
+				res.Mismatch = append(res.Mismatch, map[string]any{"obs": "session-outcome", "expected_stops": s.S, "got": o, "dev": "unclassified"})
+			}
+			if o["unanswered_steps"].(int) > 0 {
+				res.Mismatch = append(res.Mismatch, map[string]any{"obs": "step-request-never-answered", "n": o["unanswered_steps"], "early": s.E, "dev": cls("K9")})
+			}
+			if o["discon"] != "answered" {
+				res.Mismatch = append(res.Mismatch, map[string]any{"obs": "disconnect-never-answered", "dev": cls("K10")})
+			}
+			if !allowed {
+				res.Drift = append(res.Drift, map[string]any{"obs": "outcome-not-reachable-in-DapSession", "got": o, "allowed": s.Allowed})
+			}
+			out.Write(res)
+		}
+		return nil
+	})
+	if err != nil {
+		fmt.Fprintln(os.Stderr, err)
+		return 2
+	}
+	return 0
+}
+
+func init() { hx.Commands["proto"] = cmdProto }
